@@ -230,3 +230,4 @@ def check(ctx):
     ctx.import_rules("C17", r"^drop-order/")
     shared.sleep_relative_to_fresh_clock(ctx)
     shared.cancel_registered_before_publish(ctx, only=r"may::io::")
+    shared.io_timer_runs_from_first_block(ctx)
